@@ -67,7 +67,7 @@ var c14Seq int
 
 func c14Dir() string {
 	c14Seq++
-	return filepath.Join(scratchDir(), fmt.Sprintf("verif-c14.%d", os.Getpid()), fmt.Sprint(c14Seq))
+	return filepath.Join(scratchDir(), fmt.Sprintf("verif-c14.%d.%d", os.Getpid(), c14Seq))
 }
 
 func c14Monitors() []monitor.Monitor {
